@@ -2308,6 +2308,11 @@ where
         return Err(FlipError::UnsupportedDimension { dimension: D });
     }
 
+    // The caller's copy may still carry the `incident_cell` it had in another triangulation (or
+    // before a removal); the pointer of the stored vertex is set from the new cells below.
+    let mut vertex = vertex;
+    vertex.incident_cell = None;
+
     let vertex_key =
         tds.insert_vertex_with_mapping(vertex)
             .map_err(|e| FlipError::TdsMutation {
@@ -2319,10 +2324,21 @@ where
     let result = build_k1_forward_context_from_cell(tds, cell_key, vertex_key)
         .and_then(|context| apply_bistellar_flip::<K, U, V, D, 1>(tds, kernel, &context));
 
-    if result.is_err()
-        && let Some(inserted) = tds.get_vertex_by_key(vertex_key).copied()
-    {
-        let _ = tds.remove_vertex(&inserted);
+    match &result {
+        Ok(info) => {
+            // The kernel repairs the pointers of vertices whose incident cell was removed; the
+            // inserted vertex had none, and every new cell contains it.
+            if let Some(&new_cell) = info.new_cells.first()
+                && let Some(inserted) = tds.get_vertex_by_key_mut(vertex_key)
+            {
+                inserted.incident_cell = Some(new_cell);
+            }
+        }
+        Err(_) => {
+            if let Some(inserted) = tds.get_vertex_by_key(vertex_key).copied() {
+                let _ = tds.remove_vertex(&inserted);
+            }
+        }
     }
 
     result
